@@ -22,7 +22,7 @@ inline Plan Gen(uint64_t seed)
    static const char * parents[] = {"L", "L/a", "M"};
    static const char * explicitKids[] = {"x", "y", "z", "w"};
    auto EK = [&](Rng & r) -> std::string {if ((gen::g_wideNames)&&(r.pct(60))) return "k" + I(r.below(12)); return explicitKids[r.below(4)];};   // wide mode: indices of up to ~20 entries
-   const int nops = 10 + (int) wl.below(wl.oneIn(4) ? 80 : 35);
+   const int nops = Rng(seed, "longrun").oneIn(20) ? (250 + (int) wl.below(350)) : (10 + (int) wl.below(wl.oneIn(4) ? 80 : 35));
    int sinceQuiesce = 0;
    for (int op=0; op<nops; op++)
    {
